@@ -57,6 +57,10 @@ func adminGuardianSetUpgradeToVAA(
 		return nil, errors.New("empty guardian set specified")
 	}
 
+	if guardianSetIndex == math.MaxUint32 {
+		return nil, errors.New("invalid current set index (new index would overflow)")
+	}
+
 	if len(req.Guardians) > common.MaxGuardianCount {
 		return nil, fmt.Errorf("too many guardians - %d, maximum is %d", len(req.Guardians), common.MaxGuardianCount)
 	}
